@@ -77,8 +77,10 @@ func srcStore(files map[string][]byte) *lib.MemStore {
 
 // uploadFiles uploads files as a new bundle of repo (entries per index file = epf; 0 = the public default path).
 func uploadFiles(stores context2.Stores, repo string, files map[string][]byte, L int, epf uint, opts ...core.BundleOption) (*core.Bundle, error) {
+	// one file at a time by default: the order of entries in the index files follows upload completion order, which
+	// must not depend on the Go scheduler when the upload is part of a deterministic scenario set-up
 	o := append([]core.BundleOption{core.Repo(repo), core.ContextStores(stores), core.ConsumableStore(srcStore(files)),
-		core.BundleDescriptor(newBundleDesc(L, "upload")), core.Logger(nopLogger)}, opts...)
+		core.BundleDescriptor(newBundleDesc(L, "upload")), core.Logger(nopLogger), core.ConcurrentFileUploads(1)}, opts...)
 	b := core.NewBundle(o...)
 	var err error
 	if epf == 0 {
